@@ -1,5 +1,6 @@
 """C20: other container kinds run through the SAME lattice and the SAME Lean model as a plain TensorDict (refinement):
-a tensorclass whose fields are the first-level keys, and a sub-tensordict (row 0 of a parent with one more leading dim)."""
+a tensorclass whose fields are the first-level keys, a sub-tensordict (row 0 of a parent with one more leading dim) and a
+TensorDictParams wrapper (unlocked, no_convert)."""
 from __future__ import annotations
 
 import torch
@@ -26,4 +27,8 @@ def wrap(kind, self_td, struct, rng):
             parent.lock_()
         obj = parent._get_sub_tensordict(0)
         return obj, (lambda r: r)
+    if kind == "params":
+        from tensordict import TensorDictParams
+        obj = TensorDictParams(self_td, no_convert=True)    # integer leaves: kept as they are (no Parameter conversion)
+        return obj, (lambda r: r._param_td if isinstance(r, TensorDictParams) else r)
     raise ValueError(kind)
